@@ -7,6 +7,8 @@
 #include <map>
 #include <set>
 #include <chrono>
+#include <ctime>
+#include <cstring>
 #include <thread>
 #include <sstream>
 #include <iostream>
@@ -52,6 +54,17 @@ class VtTranslator : public rime::Translator {
 
 static RimeApi* api;
 
+// Session::Activate and Service::CleanupStaleSessions read the wall clock through time(): the harness supplies it, so that a
+// history can let minutes pass (`advance <seconds>`).  It stands still otherwise (the second the process started in), which also
+// makes everything else the library stamps with time() a function of the script.
+static time_t g_time_base = 0, g_time_offset = 0;
+extern "C" time_t time(time_t* t) {
+  if (!g_time_base) { struct timespec ts; clock_gettime(CLOCK_REALTIME, &ts); g_time_base = ts.tv_sec; }
+  time_t v = g_time_base + g_time_offset;
+  if (t) *t = v;
+  return v;
+}
+
 static bool g_stall = false;   // set for one observation: see the `key` op
 
 static void observe(RimeSessionId s, int ret, const std::string& text) {
@@ -61,7 +74,28 @@ static void observe(RimeSessionId s, int ret, const std::string& text) {
   const char* in = api->get_input(s);
   RIME_STRUCT(RimeStatus, st);
   int composing = 0;
-  if (api->get_status(s, &st)) { composing = st.is_composing; api->free_status(&st); }
+  // cross-checks between the read paths of the API (printed only when one fails: ` xcheck=<what>`): the status flags against the
+  // options they are derived from, get_option against the context, a second get_context against the first, the menu's select keys
+  // against the schema's
+  std::string xcheck;
+  if (api->get_status(s, &st)) {
+    composing = st.is_composing;
+    auto sess = rime::Service::instance().GetSession(s);
+    if (sess && sess->context()) {
+      rime::Context* cx = sess->context();
+      if (!!st.is_ascii_mode != cx->get_option("ascii_mode")) xcheck = "status:ascii_mode";
+      if (!!st.is_full_shape != cx->get_option("full_shape")) xcheck = "status:full_shape";
+      if (!!st.is_simplified != cx->get_option("simplification")) xcheck = "status:simplification";
+      if (!!st.is_traditional != cx->get_option("traditional")) xcheck = "status:traditional";
+      if (!!st.is_ascii_punct != cx->get_option("ascii_punct")) xcheck = "status:ascii_punct";
+      if (!!st.is_composing != cx->IsComposing()) xcheck = "status:composing";
+      if (st.is_disabled) xcheck = "status:disabled";
+      if (!st.schema_id || !sess->schema() || sess->schema()->schema_id() != st.schema_id) xcheck = "status:schema_id";
+      if (!st.schema_name || !sess->schema() || sess->schema()->schema_name() != st.schema_name) xcheck = "status:schema_name";
+    }
+    api->free_status(&st);
+    if (st.schema_id || st.schema_name) xcheck = "status:not-cleared-by-free";
+  }
   o << " input=" << hex(in ? std::string(in) : std::string()) << " caret=" << api->get_caret_pos(s)
     << " composing=" << composing;
   // un-read commit buffer (Session::commit_text_) and candidate end positions: read through the private
@@ -102,7 +136,34 @@ static void observe(RimeSessionId s, int ret, const std::string& text) {
     } else {
       o << " menu=~";
     }
+    {
+      RIME_STRUCT(RimeContext, again);
+      if (!api->get_context(s, &again)) xcheck = "reread:refused";
+      else {
+        auto str = [](const char* p) { return p ? std::string(p) : std::string("\x01null"); };
+        if (str(again.composition.preedit) != str(ctx.composition.preedit) || again.composition.length != ctx.composition.length ||
+            again.composition.cursor_pos != ctx.composition.cursor_pos || again.composition.sel_start != ctx.composition.sel_start ||
+            again.composition.sel_end != ctx.composition.sel_end || str(again.commit_text_preview) != str(ctx.commit_text_preview))
+          xcheck = "reread:composition";
+        if (again.menu.page_size != ctx.menu.page_size || again.menu.page_no != ctx.menu.page_no || again.menu.is_last_page != ctx.menu.is_last_page ||
+            again.menu.highlighted_candidate_index != ctx.menu.highlighted_candidate_index || again.menu.num_candidates != ctx.menu.num_candidates ||
+            str(again.menu.select_keys) != str(ctx.menu.select_keys))
+          xcheck = "reread:menu";
+        else
+          for (int i = 0; i < ctx.menu.num_candidates; ++i)
+            if (str(again.menu.candidates[i].text) != str(ctx.menu.candidates[i].text) || str(again.menu.candidates[i].comment) != str(ctx.menu.candidates[i].comment))
+              xcheck = "reread:candidates";
+        api->free_context(&again);
+      }
+      auto sess = rime::Service::instance().GetSession(s);
+      if (sess && sess->schema() && ctx.menu.num_candidates > 0) {
+        const std::string& sk = sess->schema()->select_keys();
+        if ((ctx.menu.select_keys ? std::string(ctx.menu.select_keys) : std::string()) != sk) xcheck = "menu:select_keys";
+      }
+      if (ctx.composition.preedit && ctx.composition.length != (int)strlen(ctx.composition.preedit)) xcheck = "composition:length";
+    }
     api->free_context(&ctx);
+    if (ctx.composition.preedit || ctx.menu.candidates || ctx.commit_text_preview) xcheck = "context:not-cleared-by-free";
     // the segment list itself (never reported to a client): |composition input| and, per segment,
     // start-end-length-status-selected_index-tags (a=abc r=raw p=partial g=paging e=selected_before_editing h=phony
     // l=placeholder u=punct d=punct_number; other tags: `+<bytes of the name in decimal>`) — compared with the model and checked for geometry
@@ -140,12 +201,16 @@ static void observe(RimeSessionId s, int ret, const std::string& text) {
         static const char* kOpts[] = {"ascii_mode", "full_shape", "ascii_punct", "soft_cursor", "_linear", "_vertical", "_horizontal",
                                       "opt_a", "opt_b", "opt_c", "@9"};
         o << " opts=";
-        for (const char* n : kOpts) o << (sess->context()->get_option(n) ? "1" : "0");
+        for (const char* n : kOpts) {
+          o << (sess->context()->get_option(n) ? "1" : "0");
+          if (!!api->get_option(s, n) != sess->context()->get_option(n)) xcheck = std::string("get_option:") + n;
+        }
       }
     }
   } else {
     o << " nocontext";
   }
+  if (!xcheck.empty()) o << " xcheck=" << xcheck;
   if (g_stall) { o << " stall=1"; g_stall = false; }
   puts(o.str().c_str());
 }
@@ -194,6 +259,19 @@ int main(int argc, char** argv) {
       std::ifstream in(ws + "/user.yaml", std::ios::binary);
       std::ofstream out(to, std::ios::binary);
       if (in) out << in.rdbuf();
+      continue;
+    }
+    if (w == "advance") {
+      // the wall clock moves on; no call is made (a call on the current session would mark it active at the new time); prints nothing
+      long sec; is >> sec; g_time_offset += sec;
+      continue;
+    }
+    if (w == "cleanup_stale") {
+      // Service::CleanupStaleSessions, then every id the harness holds as live is looked up (find_session: the survivors
+      // are active again at this time), then the view of the current session
+      api->cleanup_stale_sessions();
+      for (size_t k = 0; k < sessions.size(); ++k) if (alive[k] && !api->find_session(sessions[k])) alive[k] = false;
+      observe(cur, 1, "");
       continue;
     }
     if (w == "new") { cur = api->create_session(); sessions.push_back(cur); alive.push_back(cur != 0); ret = cur != 0; }
